@@ -780,6 +780,28 @@ func (vc *VC) modCall(fn *ssa.Function, c *ssa.CallCommon, out map[string]bool, 
 	} else if sc := c.StaticCallee(); sc != nil {
 		callees = []*ssa.Function{sc}
 	} else {
+		// dynamic call through a func-typed field with an abstract contract
+		if u, ok := c.Value.(*ssa.UnOp); ok && u.Op == token.MUL {
+			if structT, field, _, ok := vc.fieldOfAddr(u.X); ok {
+				if n := namedOf(structT); n != nil && n.Obj().Pkg() != nil {
+					key := n.Obj().Pkg().Path() + "." + n.Obj().Name() + "." + structT.Underlying().(*types.Struct).Field(field).Name()
+					if ac, ok := vc.eng.contracts.Funcs[key]; ok && ac.Like != "" {
+						out["G_alloc"] = true
+						if like, ok := vc.eng.fnByKey[ac.Pkg+"."+ac.Like]; ok {
+							for _, m := range ac.Modifies {
+								for _, k := range vc.modTargetSVs(like, m) {
+									out[k] = true
+								}
+							}
+						}
+						if ac.ModifiesAll {
+							addAll()
+						}
+						return
+					}
+				}
+			}
+		}
 		vc.modExternal(c, out)
 		return
 	}
